@@ -495,12 +495,22 @@ class ClassModel:
         if b is None:
             return None
         got = set()
+        vl = None
         for x in walk(b):
             if x.get("k") == "ReturnStmt":
                 c = [y for y in cir.kids(x) if y is not None]
                 if not c:
                     return None
                 e = skip(c[0])
+                for _ in range(4):      # `const T v = field_; return v;` reports the same field
+                    if e is None or e.get("k") != "DeclRefExpr" or (e.get("ref") or {}).get("k") != "VarDecl":
+                        break
+                    if vl is None:
+                        vl = value_locals(method.node)
+                    d = vl.get(e["ref"].get("id"))
+                    if d is None:
+                        break
+                    e = skip(d[1])
                 if e is not None and e.get("k") == "CXXMemberCallExpr":
                     r = receiver(e)
                     if r and r[2] in ("get",):
@@ -820,6 +830,109 @@ def loop_exit_conds(lp):
                 out.append(c[0])
                 break
     return out
+
+
+def _ref_id(e):
+    e = skip(e)
+    return (e.get("ref") or {}).get("id") if e is not None and e.get("k") == "DeclRefExpr" else None
+
+
+def modifies_var(n, vid):
+    """Some node under n assigns to / increments / takes the address of the variable with id vid."""
+    for x in walk(n):
+        k = x.get("k")
+        tgt = None
+        if (k == "BinaryOperator" and x.get("op") == "=") or k == "CompoundAssignOperator":
+            tgt = cir.kids(x)[0]
+        elif k == "UnaryOperator" and x.get("op") in ("++", "--", "&"):
+            tgt = cir.kids(x)[0]
+        elif k == "CXXOperatorCallExpr" and op_name(x) in ("=", "+=", "-=", "++", "--"):
+            a = op_args(x)
+            tgt = a[0] if a else None
+        if tgt is not None and _ref_id(tgt) == vid:
+            return True
+    return False
+
+
+def _is_step(e, vid):
+    e = skip(e)
+    if e is None:
+        return False
+    if e.get("k") == "UnaryOperator" and e.get("op") == "++":
+        return _ref_id(cir.kids(e)[0]) == vid
+    if e.get("k") == "CompoundAssignOperator" and e.get("op") == "+=":
+        a, b = cir.kids(e)
+        b = skip(b)
+        return _ref_id(a) == vid and b is not None and b.get("k") == "IntegerLiteral" and str(b.get("v")) == "1"
+    return False
+
+
+def index_loop(root, lp):
+    """A loop that counts a local upward by one, whichever way it is written:
+        for (i = s; i < B; i++) BODY          i = s; while (i < B) { BODY; i++; }
+    -> {"var": id, "start": expr, "bound": expr, "op": "<" | "!=", "body": [statements of BODY]} or None.
+    BODY does not modify the counter; in the while form the step is the last statement of the body, no `continue`
+    can skip it, and nothing between the initialisation and the loop modifies the counter."""
+    k = lp.get("k")
+    if k not in ("ForStmt", "WhileStmt"):
+        return None
+    cond, body = loop_parts(lp)
+    c = skip(cond)
+    if c is None or c.get("k") != "BinaryOperator" or c.get("op") not in ("<", "!=", ">"):
+        return None
+    a, b = cir.kids(c)
+    if c["op"] == ">":
+        a, b, op = b, a, "<"
+    else:
+        op = c["op"]
+    vid = _ref_id(a)
+    if vid is None or (skip(a).get("ref") or {}).get("k") != "VarDecl":
+        return None
+
+    def start_of(st):
+        """initial value if statement st (re)initialises the counter"""
+        if st is None:
+            return None
+        if st.get("k") == "DeclStmt":
+            for d in cir.kids(st):
+                if d and d.get("k") == "VarDecl" and d.get("id") == vid:
+                    init = [y for y in cir.kids(d) if y is not None]
+                    return init[-1] if init else None
+            return None
+        e = skip(st)
+        if e is not None and e.get("k") == "BinaryOperator" and e.get("op") == "=" and _ref_id(cir.kids(e)[0]) == vid:
+            return cir.kids(e)[1]
+        return None
+    stmts = [y for y in cir.kids(body) if y is not None] if body is not None and body.get("k") == "CompoundStmt" else \
+        ([body] if body is not None else [])
+    if k == "ForStmt":
+        kids = list(cir.kids(lp)) + [None] * 5
+        start = start_of(kids[0])
+        if start is None or not _is_step(kids[3], vid):
+            return None
+    else:
+        if not stmts or not _is_step(stmts[-1], vid):
+            return None
+        stmts = stmts[:-1]
+        for st in stmts:
+            for x in walk(st):
+                if x.get("k") == "ContinueStmt":
+                    return None
+        start = None
+        for P in walk(root):
+            if P.get("k") == "CompoundStmt" and any(y is lp for y in cir.kids(P)):
+                sib = list(cir.kids(P))
+                i = [j for j, y in enumerate(sib) if y is lp][0]
+                for st in reversed(sib[:i]):
+                    start = start_of(st)
+                    if start is not None or (st is not None and modifies_var(st, vid)):
+                        break
+                break
+        if start is None:
+            return None
+    if any(modifies_var(st, vid) for st in stmts) or modifies_var(b, vid):
+        return None
+    return {"var": vid, "start": start, "bound": b, "op": op, "body": stmts}
 
 
 # ----------------------------------------------------------------------------- linear forms
